@@ -15,15 +15,15 @@ EXTENDS Integers, Sequences, FiniteSets, TLC, Json
 CONSTANTS MAXLEN, CALLS      \* CALLS: set of call ids (attributes below)
 
 \* call attributes: kind, macroblock grid (0 = not applicable), parallel (uses the row pipeline)
-Kind(c) == CASE c \in (0..7) \cup {23, 24} -> "lossy-enc" [] c \in 8..11 -> "lossless-enc" [] c \in 12..15 -> "lossy-dec"
+Kind(c) == CASE c \in (0..7) \cup {23, 24} -> "lossy-enc" [] c \in (8..11) \cup (25..27) \cup {30} -> "lossless-enc" [] c \in (12..15) \cup {29} -> "lossy-dec"
              [] c \in 16..18 -> "lossless-dec" [] c = 19 -> "bad-lossy-dec" [] c = 20 -> "bad-lossless-dec" [] OTHER -> "other"
 \* macroblock grid class of the picture a lossy call works on: 1 = 3x2, 2 = 6x8, 3 = 5x4
-Grid(c) == CASE c \in {0, 1, 2, 3, 12, 13} -> 1 [] c \in {4, 5, 14, 19} -> 2 [] c \in {6, 7, 15, 23, 24} -> 3 [] OTHER -> 0
+Grid(c) == CASE c \in {0, 1, 2, 3, 12, 13, 29} -> 1 [] c \in {4, 5, 14, 19} -> 2 [] c \in {6, 7, 15, 23, 24} -> 3 [] OTHER -> 0
 Parallel(c) == c \in {4, 5}
 
-VARIABLES encObj, decObj, llDecUsed, hist, reuse
-vars == <<encObj, decObj, llDecUsed, hist, reuse>>
-Init == encObj = 0 /\ decObj = 0 /\ llDecUsed = FALSE /\ hist = <<>> /\ reuse = <<>>
+VARIABLES encObj, decObj, llDecUsed, llEncUsed, hist, reuse
+vars == <<encObj, decObj, llDecUsed, llEncUsed, hist, reuse>>
+Init == encObj = 0 /\ decObj = 0 /\ llDecUsed = FALSE /\ llEncUsed = FALSE /\ hist = <<>> /\ reuse = <<>>
 
 Call(c) ==
   /\ Len(hist) < MAXLEN
@@ -32,10 +32,12 @@ Call(c) ==
      /\ encObj' = IF k = "lossy-enc" THEN Grid(c) ELSE encObj
      /\ decObj' = IF k \in {"lossy-dec", "bad-lossy-dec"} THEN Grid(c) ELSE decObj
      /\ llDecUsed' = (llDecUsed \/ k \in {"lossless-dec", "bad-lossless-dec"})
+     /\ llEncUsed' = (llEncUsed \/ k = "lossless-enc")      \* the pooled lossless Encoder keeps its scratch slabs
      /\ reuse' = Append(reuse,
                    CASE k = "lossy-enc" -> encObj = Grid(c)
                      [] k \in {"lossy-dec", "bad-lossy-dec"} -> decObj # 0
                      [] k \in {"lossless-dec", "bad-lossless-dec"} -> llDecUsed
+                     [] k = "lossless-enc" -> llEncUsed
                      [] OTHER -> FALSE)
 Next == \E c \in CALLS : Call(c)
 Spec == Init /\ [][Next]_vars
